@@ -687,6 +687,60 @@ Definition wf_prog (p : sprog) (steps : list instr) : bool :=
   && forallb (step_ok p (map fst (sp_args p) ++ flat_map outs_of steps)) steps.
 
 (* ------------------------------------------------------------------ *)
+(** * The per-instruction circuit cache of Program.Stream
+      (cache[instr.StringTyped()]; bts/btc are not cached)
+
+   What the generator of a step circuit reads is the step's SHAPE: the opcode,
+   the bit sizes of the operands (for a slice-typed operand: element size times
+   length), the bit size of the result and, for index, the constant offset.
+   The cache is sound iff it is a memo: two steps with the same key have the
+   same shape.  [memo_ok] checks that for the (key, shape) list of a program —
+   the keys are the strings the Go code computes, numbered by the harness;
+   [cached_run] is the cache itself, for any generator. *)
+Definition shape := (Z * list nat * nat * Z)%type.
+
+Definition step_shape (opcode : Z) (s : instr) : shape :=
+  (opcode, map vbits (iin s), match iout s with Some o => vbits o | None => 0 end,
+   if Z.eqb opcode compiler_ssa_Index then nth 1 (map vcint (iin s)) 0%Z else 0%Z).
+
+Fixpoint list_nat_eqb (a b : list nat) : bool :=
+  match a, b with
+  | [], [] => true
+  | x :: a', y :: b' => Nat.eqb x y && list_nat_eqb a' b'
+  | _, _ => false
+  end.
+
+Definition shape_eqb (a b : shape) : bool :=
+  let '(o1, i1, r1, c1) := a in
+  let '(o2, i2, r2, c2) := b in
+  Z.eqb o1 o2 && list_nat_eqb i1 i2 && Nat.eqb r1 r2 && Z.eqb c1 c2.
+
+Section Memo.
+  Variables (S C : Type) (seqb : S -> S -> bool) (gen : S -> C).
+
+  Fixpoint memo_ok (l : list (N * S)) (seen : list (N * S)) : bool :=
+    match l with
+    | [] => true
+    | (k, sh) :: t =>
+        match lookup k seen with
+        | Some sh0 => seqb sh0 sh && memo_ok t seen
+        | None => memo_ok t ((k, sh) :: seen)
+        end
+    end.
+
+  (* the circuits the cached streamer uses, step by step *)
+  Fixpoint cached_run (l : list (N * S)) (cache : list (N * C)) : list C :=
+    match l with
+    | [] => []
+    | (k, sh) :: t =>
+        match lookup k cache with
+        | Some c => c :: cached_run t cache
+        | None => let c := gen sh in c :: cached_run t ((k, c) :: cache)
+        end
+    end.
+End Memo.
+
+(* ------------------------------------------------------------------ *)
 (** * sendArgument / receiveArgument *)
 
 (* circuit.IOArg as transmitted: name, type string, Type.Bits, Compound *)
